@@ -144,23 +144,24 @@ func checkC18(c *Ctx, r *Report) {
 		r.Fail("C18-wrap", "anchor fbb.StringToBody not found")
 	} else {
 		where := fnName(fn)
-		// chunk writes: bytes.Buffer.Write(out, line[:n])
-		var chunks []ssa.CallInstruction
-		for _, ci := range callsTo(fn, false, "bytes.Buffer.Write") {
-			if sl, ok := ci.Common().Args[1].(*ssa.Slice); ok && sl.High != nil {
-				if _, isC := constInt(sl.High); !isC {
-					chunks = append(chunks, ci)
-				}
-			}
-		}
+		// chunk writes: bytes.Buffer.Write(out, line[:n]) in StringToBody itself or in a same-package
+		// helper that is handed the buffer (ip_g8.go); the slice and the buffer may be parameters of
+		// the helper, bound to the arguments of the call
+		ip := newIPG2(c, pkg)
+		chunks := ip.g8BufferWrites(fn)
 		if len(chunks) == 0 {
 			r.Add("C18-wrap", where, "chunk write", c.pos(fn.Pos())).Bad("StringToBody no longer writes bounded chunks of a line (anchor unresolved): lines are not wrapped to the 1000-byte limit")
 		}
-		for _, ci := range chunks {
-			sl := ci.Common().Args[1].(*ssa.Slice)
+		for _, ch := range chunks {
+			ci, sl := ch.write, ch.slice
+			if g := sl.Parent(); g != fn {
+				where = fnName(g)
+			} else {
+				where = fnName(fn)
+			}
 			n := sl.High
-			o := r.Add("C18-wrap", where, "cut position of "+c.exprAt(fn, sl.Pos()), c.pos(sl.Pos()))
-			usesUTF8 := dependsOn(n, func(v ssa.Value) bool {
+			o := r.Add("C18-wrap", where, "cut position of "+c.exprAt(sl.Parent(), sl.Pos()), c.pos(sl.Pos()))
+			usesUTF8 := ip.dependsOn(n, func(v ssa.Value) bool {
 				call, ok := v.(*ssa.Call)
 				if !ok {
 					return false
@@ -174,7 +175,7 @@ func checkC18(c *Ctx, r *Report) {
 				}
 				return false
 			})
-			translated := dependsOn(sl.X, func(v ssa.Value) bool {
+			translated := ip.dependsOn(sl.X, func(v ssa.Value) bool {
 				call, ok := v.(*ssa.Call)
 				return ok && strings.HasSuffix(callName(&call.Call), ".Translate")
 			})
@@ -187,21 +188,13 @@ func checkC18(c *Ctx, r *Report) {
 				o.Bad("a long line is cut at a plain byte offset of the UTF-8 input: a multi-byte character straddling the limit is destroyed")
 			}
 			o = r.Add("C18-wrap", where, "chunk length <= 998", c.pos(sl.Pos()))
-			if pr.LE(n, false, 0, nil, false, 998, ci) {
+			if pr.LE(n, false, 0, nil, false, 998, ch.at) {
 				o.OK("the chunk written is proven to be at most 998 bytes (1000 with CRLF)")
 			} else {
 				o.Bad("the chunk length is not proven <= 998: a stored line can exceed 1000 bytes including CRLF")
 			}
-			o = r.Add("C18-wrap", where, "CRLF after each chunk", c.pos(ci.Pos()))
-			crlf := false
-			for _, in := range ci.Block().Instrs[instrIndex(ci)+1:] {
-				if call, ok := in.(*ssa.Call); ok && callName(&call.Call) == "bytes.Buffer.WriteString" && call.Call.Args[0] == ci.Common().Args[0] {
-					if s, _ := constString(call.Call.Args[1]); s == "\r\n" {
-						crlf = true
-					}
-				}
-			}
-			if crlf {
+			o = r.Add("C18-wrap", fnName(ci.Parent()), "CRLF after each chunk", c.pos(ci.Pos()))
+			if ip.g8CRLFFollows(ci) {
 				o.OK("\"\\r\\n\" is written to the same buffer directly after the chunk")
 			} else {
 				o.Bad("the chunk is not followed by CRLF in the same step: lines would not all end in CRLF")
@@ -326,13 +319,9 @@ func sizeRule(c *Ctx, r *Report, rule string) {
 			if !instrReaches(st, ret) {
 				continue
 			}
-			dom := false
-			for _, s := range sets {
-				if instrDominates(s, ret) {
-					dom = true
-				}
-			}
-			if !dom {
+			// a path condition, not dominance of the update over the return: a single-exit function
+			// `if err == nil { store; update }; return err` updates on every path through the store
+			if !g8FollowedOrPreceded(st, ret, sets) {
 				okAll = false
 			}
 		}
@@ -560,19 +549,13 @@ func checkC09(c *Ctx, r *Report) {
 		// Mid first
 		if hw != nil {
 			o = r.Add("C09-delims", "fbb.Header.Write", "Mid written first and excluded from the sorted rest", c.pos(hw.Pos()))
-			var first ssa.CallInstruction
-			for _, ci := range callsTo(hw, false, "fmt.Fprintf") {
-				if first == nil || ci.Pos() < first.Pos() {
-					first = ci
-				}
+			// the line written before every other one (dominance, not source order), and the keys of
+			// the other lines traced back to where they are collected - possibly in a helper (ip_g8.go)
+			s := ""
+			if first := g8FirstWrite(hw); first != nil {
+				s, _ = constString(first.Common().Args[1])
 			}
-			s, _ := constString(first.Common().Args[1])
-			excl := false
-			for _, ci := range callsTo(hw, false, "strings.EqualFold") {
-				if k, _ := constString(ci.Common().Args[1]); k == "Mid" {
-					excl = true
-				}
-			}
+			excl := g8MidExcluded(c, hw, pkg)
 			if strings.HasPrefix(s, "Mid: ") && excl {
 				o.OK("the first line written is 'Mid: ...' and the key is skipped when collecting the others")
 			} else {
